@@ -113,7 +113,8 @@ def model_parse(reply, n):
 
 LOCS = ['a/foo', 'a/foobar', 'a/foo/bar', 'a/foo/bar/baz', 'a/fo', 'a/b',
         'a b/c', 'ab/c', 'a', 'deep/er/and/deeper/x', 'a/foo bar', 'a/foo.txt',
-        'A/foo', 'a/Foo', 'x', 'a/foo\nbar' if False else 'a/foo+bar']
+        'A/foo', 'a/Foo', 'x', 'a/foo+bar', '..cache', '...', 'a/..foo/x',
+        'a/.hidden', 'a/b..c', '..a/b', 'a/...', '. /x', ]
 
 
 def gen_case(rng, index, tier):
@@ -206,9 +207,10 @@ def run_direct(case):
                 out['violations'].append({
                     'mechanism': 'parse_indexes-raises-%s' % type(e).__name__,
                     'detail': {'reply': reply, 'n': n}})
-    comps = ['a', 'foo', 'foobar', 'fo', 'foo bar', 'b', '', 'a/b']
+    comps = ['a', 'foo', 'foobar', 'fo', 'foo bar', 'b', '..x', '...', '.h',
+             'a..b', '', 'a/b']
     for i in range(case['n']):
-        loc = '/' + '/'.join(rng.choice(comps[:6]) for _ in range(rng.randint(1, 4)))
+        loc = '/' + '/'.join(rng.choice(comps[:10]) for _ in range(rng.randint(1, 4)))
         v = rng.random()
         if v < 0.4:
             d = loc[:rng.randrange(1, len(loc) + 1)]
@@ -217,7 +219,7 @@ def run_direct(case):
         elif v < 0.7:
             d = '/'
         else:
-            d = '/' + '/'.join(rng.choice(comps[:6]) for _ in range(rng.randint(1, 3)))
+            d = '/' + '/'.join(rng.choice(comps[:10]) for _ in range(rng.randint(1, 3)))
         if len(d) > 1:
             d = d.rstrip('/')
         TrashedFile(loc, None, 'i', 'f').original_location_matches_path(d or '/')
